@@ -134,7 +134,7 @@ def add_number(reg):
                      pure=True, assumed='bounded: bounded/bigint.py bytes_to_long against int.from_bytes'))
 
 
-def registry(state=None, key='GCM', buf='buffer', out='none|bytearray'):
+def registry(state=None, key='GCM', buf='buffer', out='none|bytearray', clmul='<ghash_clmul>'):
     """state: the concrete value of `_next` at entry (tuple of method names); default = the initial state.
     buf / out: type alternatives of the data and output= parameters (units may take them one at a time)"""
     reg = base_registry()
@@ -261,17 +261,37 @@ def registry(state=None, key='GCM', buf='buffer', out='none|bytearray'):
 
     # ------------------------------------------------------------------ construction (C02 glue, C01 mac_len domain)
     bad = ('factory.block_size != 16 or len(nonce) == 0 or len(nonce) > %s or mac_len < 4 or mac_len > 16' % AUTH_MAX)   # 5.2.1.1: len(IV) in bits
-    reg.add(Contract(GM + '.__init__', params={'factory': 'obj:' + nat.FACTORY, 'key': buf, 'nonce': buf, 'mac_len': 'int',
+    fresh = ('conj(%s == b"", self._auth_len == 0, self._msg_len == 0, self._status == 1, self._cipher.g_pos == 0, '
+             'self._cipher.g_dir == 0, self._tag_cipher.g_dir == 0)' % S)
+    nat.ctor_at_call_sites(reg, Contract(GM + '.__init__', params={'factory': 'obj:' + nat.FACTORY, 'key': buf, 'nonce': buf, 'mac_len': 'int',
                                                'cipher_params': nat.EMPTY_PARAMS, 'ghash_c': 'any'},
-                     raises={'ValueError': ('iff', bad)},
+                     raises={'ValueError': ('iff', bad)}, sets={'self._next': repr(tuple(t['init']))},
                      ensures=ens({'nonce': 'self.nonce == bytes(nonce)', 'mac_len': 'self._mac_len == mac_len',
                                   'cipher': 'conj(%s == factory.g_fid, %s == bytes(key))' % (FID, KEY),
                                   'j0': '%s == spec.aead1.gcm_j0(%s, %s, bytes(nonce))' % (J0, FID, KEY),
-                                  'fresh': 'conj(%s == b"", self._auth_len == 0, self._msg_len == 0, self._status == 1, self._cipher.g_pos == 0, '
-                                           'self._cipher.g_dir == 0, self._tag_cipher.g_dir == 0)' % S,
-                                  'no_tag': 'self._tag is None',
-                                  'next': next_is(M, t['init'])}),
-                     modifies=['self.*'], options={'assume_valid': False}, opaque=['spec.aead1.pad16', 'spec.aead1.be4']))
+                                  'fresh': fresh, 'no_tag': 'self._tag is None', 'next': next_is(M, t['init'])}),
+                     modifies=['self.*'], options={'assume_valid': False}, opaque=['spec.aead1.pad16', 'spec.aead1.be4']),
+                           dict(FIELDS, _tag='none', _mac_len='int', nonce='bytes'))
+
+    # _create_gcm_cipher(factory, **kwargs): key, nonce (optional, None = absent -> 16 random bytes), mac_len (default 16),
+    # use_clmul (test switch).  Other keywords would travel to the cipher as cipher_params: not in the modelled domain.
+    reg.overrides[G + '_ghash_clmul'] = clmul          # the two module-level GHASH back ends (ctypes handles): opaque stand-ins
+    reg.overrides[G + '_ghash_portable'] = '<ghash_portable>'
+    R = lambda c: c.replace('self.', 'result.')       # noqa
+    OK = 'old(kwargs)'
+    NG = '("nonce" in %s and %s["nonce"] is not None)' % (OK, OK)
+    badk = ('factory.block_size != 16 or ("nonce" in kwargs and kwargs["nonce"] is not None and (len(kwargs["nonce"]) == 0 or len(kwargs["nonce"]) > %s)) '
+            'or kwargs.get("mac_len", 16) < 4 or kwargs.get("mac_len", 16) > 16' % AUTH_MAX)
+    cens = {R(k): R(v) for k, v in INV.items()}
+    cens.update({'mac_len': 'result._mac_len == %s.get("mac_len", 16)' % OK,
+                 'nonce_attr': '(%s ==> result.nonce == bytes(%s["nonce"])) and (not %s ==> len(result.nonce) == 16)' % (NG, OK, NG),
+                 'cipher': R('conj(%s == factory.g_fid, %s == bytes(%s["key"]))' % (FID, KEY, OK)),
+                 'j0': R('%s == spec.aead1.gcm_j0(%s, %s, self.nonce)' % (J0, FID, KEY)),
+                 'fresh': R(fresh), 'no_tag': 'result._tag is None', 'next': R(next_is(M, t['init']))})
+    reg.add(Contract(G + '_create_gcm_cipher', params={'factory': 'obj:' + nat.FACTORY, 'kwargs': 'dict(key:bytes,nonce:bytes)'},
+                     raises={'TypeError': ('iff', '"key" not in kwargs'), 'ValueError': ('iff', '"key" in kwargs and (%s)' % badk)},
+                     ensures=cens, modifies=['kwargs'], options={'assume_valid': False},
+                     opaque=OPQ + ['spec.aead1.pad16', 'spec.aead1.be4', 'spec.aead1.gcm_j0']))
     return reg
 
 
@@ -341,7 +361,20 @@ def units(prop, tier):
             out.append(pyvc_unit(prop, 'gcm.__init__[key:%s,nonce:%s]' % (k, n), functools.partial(_init_registry, k, n), [GM + '.__init__']))
         per_buf('encrypt', PERMITTED['encrypt'], one)
         per_buf('decrypt', PERMITTED['decrypt'], one)
+        for nm, v in (('clmul', '<ghash_clmul>'), ('portable', None)):       # CLMUL back end present / absent on this CPU
+            out.append(pyvc_unit(prop, 'gcm._create_gcm_cipher[%s]' % nm, functools.partial(_create_registry, v), [G + '_create_gcm_cipher']))
     return out
+
+
+CREATE_KW = ['dict(key:bytes,nonce:bytes,mac_len:int)', 'dict(key:bytearray,nonce:memoryview)', 'dict(key:memoryview,nonce:bytearray,use_clmul:bool)',
+             'dict(key:bytes)', 'dict(key:bytes,nonce:none,mac_len:int)', 'dict(nonce:bytes)', 'dict()']
+
+
+def _create_registry(clmul):
+    reg = registry(clmul=clmul)
+    c = reg.contracts[G + '_create_gcm_cipher']
+    c.params = dict(c.params, kwargs='|'.join(CREATE_KW))
+    return reg
 
 
 def _init_registry(k, n):
